@@ -4,7 +4,7 @@ CONSTANTS
   CanonOf <- ArrayCanon
   PyOf <- ArrayPy
   KeyMode = "exact"
-  MaxOps = 5
+  MaxOps = 8
   MaxPickles = 1
   Label = "array"
 INVARIANT UniqueLive
